@@ -278,6 +278,8 @@ fn scan<F: Family>(fam: Arc<F>, cfg: &LaneCfg, known: &super::known::Known) -> (
     let hits = hits.clone();
     let first_hit = first_hit.clone();
     let property = cfg.property.clone();
+    // triage aid (never set by registered commands): report violations of every property
+    let any_property = std::env::var("VERIF_ANY_PROPERTY").is_ok();
     let known_w = known.clone();
     let batch_seed = cfg.batch_seed;
     let runs = cfg.runs;
@@ -344,7 +346,7 @@ fn scan<F: Family>(fam: Arc<F>, cfg: &LaneCfg, known: &super::known::Known) -> (
             return;
           }
           for v in ev.violations {
-            if v.property == property {
+            if v.property == property || any_property {
               // a listed finding is reported once and never ends the search
               let listed = known_w.matches(&v);
               let mut h = hits.lock().unwrap();
